@@ -133,7 +133,12 @@ func (dm *DMap) deleteKey(key string) error {
 	if !f.storage.Check(hkey) {
 		// DeleteMisses is the number of deletions reqs for missing keys
 		DeleteMisses.Increase(1)
-		return nil
+		// While the partition is being handed over, the key may still live only on
+		// a previous owner. It has to be deleted there too, otherwise it comes back
+		// when that fragment is merged into this one.
+		if len(dm.s.primary.PartitionOwnersByHKey(hkey)) <= 1 {
+			return nil
+		}
 	}
 
 	return dm.deleteOnCluster(hkey, key, f)
